@@ -632,9 +632,9 @@ func c06Mix(aliasCheck bool) {
 func H_C08_SInt32()   { pbC08(&SInt32{}, c08N(5, 7)) }
 func H_C08_SSint64()  { pbC08(&SSint64{}, c08N(5, 7)) }
 func H_C08_SFixed32() { pbC08(&SFixed32{}, c08N(6, 8)) }
-func H_C08_SSfixed64() { pbC08(&SSfixed64{}, c08N(6, 10)) }
+func H_C08_SSfixed64() { pbC08(&SSfixed64{}, c08N(6, 8)) }
 func H_C08_SFloat()   { pbC08(&SFloat{}, c08N(6, 8)) }
-func H_C08_SDouble()  { pbC08(&SDouble{}, c08N(6, 10)) }
+func H_C08_SDouble()  { pbC08(&SDouble{}, c08N(6, 8)) }
 func H_C08_SBool()    { pbC08(&SBool{}, c08N(5, 7)) }
 func H_C08_SEnum()    { pbC08(&SEnum{}, c08N(5, 7)) }
 func H_C08_SString()  { pbC08(&SString{}, c08N(5, 7)) }
